@@ -773,3 +773,18 @@ pub fn thread_dir(ctx: &Ctx) -> PathBuf {
         d
     })
 }
+
+/// Run `f` on a helper thread; `None` if it does not finish within `secs` (the thread is abandoned —
+/// a hang or an exponential computation cannot be interrupted in-process).  A deadline hit is never a
+/// verdict: callers count it as inconclusive.
+pub fn with_deadline<T: Send + 'static>(secs: u64, f: impl FnOnce() -> T + Send + 'static) -> Option<T> {
+    let (tx, rx) = std::sync::mpsc::channel();
+    std::thread::Builder::new()
+        .stack_size(BIG_STACK)
+        .spawn(move || {
+            install_panic_hook();
+            let _ = tx.send(f());
+        })
+        .expect("spawn deadline thread");
+    rx.recv_timeout(std::time::Duration::from_secs(secs)).ok()
+}
